@@ -64,7 +64,8 @@ BypassWindow(s, a, r) ==
     (a.name = "RotateSigners" /\ a.bypass) =>
         (r.ok <=> s.epoch - EpochOfProof(s, a) <= Retention)
 PlainOnlyNewest(s, a, r) ==
-    (a.name = "RotateSigners" /\ ~a.bypass) => (r.ok <=> EpochOfProof(s, a) = s.epoch)
+    \* (with a minimum delay configured - cfg r1d, where the clock stands still - a plain rotation additionally waits)
+    (a.name = "RotateSigners" /\ ~a.bypass) => (r.ok <=> (EpochOfProof(s, a) = s.epoch /\ s.now - s.lastRot >= MinDelay))
 LatestFlag(s, a, r) ==
     (a.name = "ValidateProof" /\ r.ok) => ((r.ret = "true") <=> EpochOfProof(s, a) = s.epoch)
 Frame(s, a, r) == ~r.ok => r.post = s /\ r.ev = <<>> /\ Post(s, a) = s
